@@ -135,6 +135,24 @@
 //!   content models; the real receiver at version 1 ends up with it.  The
 //!   verdict does not depend on which thread got how far.
 //!   `C10_ONLY_EI=1` runs parts E and I only (development aid).
+//! Part Q (record identity): the records above are A / TXT(one string) / SOA,
+//!   for which any sensible equality is octet equality.  The receiver
+//!   (duplicate suppression, delete-by-value) and the diff capture compare
+//!   records with the `==` of the record data type, so part Q adds record data
+//!   for which "same record" and "same octets of some field" part ways: twin
+//!   pairs (X, Y) = TXT "foobar" / "foo" "bar"; TXT "foobar" / "foobar" "";
+//!   TXT "" "foobar" / "foobar"; MX 10 m.z / MX 20 m.z (two records each, RFC
+//!   1035 3.3.14 / 3.3.9), and MX 10 m.z / MX 10 M.z (ONE record: embedded
+//!   names compare case-insensitively, RFC 1035 2.3.3 / RFC 4034 6.2 - both
+//!   sides of every comparison carry such names folded to lower case).  Per
+//!   pair a universe in which a.z holds nothing, {X}, {X,Y} or {Y} ({X,Y} not
+//!   for the case pair); all ordered zone pairs run through part R (AXFR,
+//!   AXFR-style IXFR, IXFR RR / RRset granular, 2-step through every zone; all
+//!   splits up to 7 [10] RRs; thorough: part F too), part D (edit sequences
+//!   <= 2 [3] over {X}, {X,Y}, {Y}, remove, remove_all; both commit modes),
+//!   part S (sender edited with the write interface, its commit diffs served
+//!   as IXFR, 12 request kinds; thorough: 3-version chains) and part W, with
+//!   the oracles of those parts.  `C10_ONLY_Q=1` runs part Q only.
 //! Serial axis: model serials are logical (1, 2, 3 = versions of a history);
 //!   a scheme (start, step) maps them to SOA serials.  Scheme 0 is 1,2,3; seven
 //!   more cross the 2^32 wrap (FFFFFFFF->0->1, FFFFFFFF->1->3, FFFFFFFE->
@@ -180,7 +198,7 @@ use domain::net::xfr::protocol::{IterationError, XfrResponseInterpreter};
 use futures_util::StreamExt;
 use std::future::Future;
 use std::pin::Pin;
-use domain::rdata::{Soa, Txt, ZoneRecordData, A};
+use domain::rdata::{Mx, Soa, Txt, ZoneRecordData, A};
 use domain::zonetree::types::ZoneUpdate;
 use domain::zonetree::update::ZoneUpdater;
 use domain::zonetree::{InMemoryZoneDiff, ReadableZone, Rrset, SharedRrset, WritableZoneNode, Zone, ZoneBuilder, ZoneDiff, ZoneDiffItem, ZoneTree};
@@ -211,6 +229,41 @@ enum RD {
     Soa(u32),
     A(u8),
     Txt(u8),
+    /// record data of the equality axis (part Q): index into XS
+    X(u8),
+}
+
+// ---- the equality axis (part Q) ------------------------------------------
+//
+// Record data whose identity is NOT settled by comparing a few octets of a
+// fixed layout: (type, RDATA on the wire with embedded names in lower case).
+// What a record IS is its wire form (RFC 1035 3.3.14: TXT RDATA is a sequence
+// of character-strings, so "foobar" and "foo" "bar" are two records; RFC 1035
+// 3.3.9: the preference is part of an MX record); only names embedded in
+// RDATA compare case-insensitively (RFC 1035 2.3.3, RFC 4034 6.2), so the
+// harness folds them on both sides of every comparison.
+const XS: [(u16, &[u8]); 7] = [
+    (16, b"\x06foobar"),        // 0 TXT "foobar"
+    (16, b"\x03foo\x03bar"),    // 1 TXT "foo" "bar"      same text, other character-string boundaries
+    (16, b"\x06foobar\x00"),    // 2 TXT "foobar" ""      same text, an empty character-string more
+    (16, b"\x00\x06foobar"),    // 3 TXT "" "foobar"
+    (15, b"\x00\x0a\x01m\x01z\x00"), // 4 MX 10 m.z.
+    (15, b"\x00\x14\x01m\x01z\x00"), // 5 MX 20 m.z.    differs in the preference only
+    (15, b"\x00\x0a\x01M\x01z\x00"), // 6 MX 10 M.z.    differs in the case of the embedded name only: the SAME record
+];
+/// The twin pairs (X, Y); twin universe 7 + p holds a.z in {nothing, {X},
+/// {X,Y}, {Y}} (kinds 0, 4, 5, 6 - see `kind_rds`).  In the last pair X and Y
+/// are one record by DNS rules, so no zone holds both.
+const TWINS: [(u8, u8); 5] = [(0, 1), (0, 2), (3, 0), (4, 5), (4, 6)];
+const TWIN_NAMES: [&str; 5] = ["txt-split", "txt-empty-string-appended", "txt-empty-string-in-front", "mx-preference", "mx-exchange-case"];
+const TWIN_U0: u8 = 7;
+const CASE_TWIN: usize = 4;
+
+/// RDATA with embedded names folded to lower case (length octets of labels are < 'A')
+fn fold_rdata(rtype: u16, rdata: &mut [u8]) {
+    if rtype == 15 && rdata.len() > 2 {
+        rdata[2..].make_ascii_lowercase();
+    }
 }
 
 #[derive(Clone, Copy, PartialEq, Eq, Hash, PartialOrd, Ord, Debug)]
@@ -227,6 +280,7 @@ impl RD {
             RD::Soa(_) => 6,
             RD::A(_) => 1,
             RD::Txt(_) => 16,
+            RD::X(i) => XS[i as usize].0,
         }
     }
 }
@@ -289,6 +343,17 @@ fn plan_from_json(v: &Value) -> [u8; 3] {
 /// A zone description holds per name `kind | ttl_index << 3` (see `kt`): the
 /// 64-zone universe has TTL index 0 everywhere, part L the others as well.
 fn kind_rds(kind: u8) -> Vec<RD> {
+    let u = universe_id();
+    if u >= TWIN_U0 && kind & 7 >= 4 {
+        // twin universes (part Q): 4 = {X}, 5 = {X, Y}, 6 = {Y}
+        let (x, y) = TWINS[(u - TWIN_U0) as usize];
+        return match kind & 7 {
+            4 => vec![RD::X(x)],
+            5 => vec![RD::X(x), RD::X(y)],
+            6 => vec![RD::X(y)],
+            _ => unreachable!(),
+        };
+    }
     match kind & 7 {
         0 => vec![],
         1 => vec![RD::A(1)],
@@ -342,7 +407,8 @@ fn universe() -> Vec<Kinds> {
         2 => ttl_universe(true),
         3 => ttl_small_universe(),
         4 => soa_axis_zones(),
-        _ => ttl_shape_universe(UNIVERSE.with(|u| u.get()) == 6),
+        5 | 6 => ttl_shape_universe(UNIVERSE.with(|u| u.get()) == 6),
+        u => twin_universe((u - TWIN_U0) as usize),
     }
 }
 
@@ -403,6 +469,12 @@ fn ttl_shape_universe(wide: bool) -> Vec<Kinds> {
         }
     }
     v
+}
+
+/// Part Q: a.z holds nothing, {X}, {X,Y} or {Y} of twin pair `p`
+fn twin_universe(p: usize) -> Vec<Kinds> {
+    let ks: &[u8] = if p == CASE_TWIN { &[0, 4, 6] } else { &[0, 4, 5, 6] };
+    ks.iter().map(|k| [*k, 0, 0]).collect()
 }
 
 /// (what the records of the A RRset of a.z do, what its TTL does) from `o` to `n`
@@ -513,6 +585,11 @@ fn crec(r: MRec) -> CRec {
         RD::Soa(s) => soa_rdata(s),
         RD::A(x) => vec![10, 0, 0, x],
         RD::Txt(x) => vec![2, b't', b'0' + x],
+        RD::X(i) => {
+            let mut v = XS[i as usize].1.to_vec();
+            fold_rdata(XS[i as usize].0, &mut v);
+            v
+        }
     };
     CRec { owner: OWNERS_NODOT[r.owner as usize].to_string(), rtype: r.rd.rtype(), ttl: TTLS[r.ttl as usize], rdata }
 }
@@ -611,6 +688,13 @@ fn data(rd: RD) -> SData {
         RD::Soa(s) => soa_data(actual(s), soav(s)),
         RD::A(x) => ZoneRecordData::A(A::new([10, 0, 0, x].into())),
         RD::Txt(x) => ZoneRecordData::Txt(Txt::build_from_slice(&[b't', b'0' + x]).unwrap()),
+        RD::X(i) => {
+            let (rt, w) = XS[i as usize];
+            match rt {
+                16 => ZoneRecordData::Txt(Txt::from_octets(Bytes::from_static(w)).unwrap()),
+                _ => ZoneRecordData::Mx(Mx::new(u16::from_be_bytes([w[0], w[1]]), Name::from_octets(Bytes::from_static(&w[2..])).unwrap())),
+            }
+        }
     }
 }
 
@@ -667,6 +751,7 @@ fn observe_reader(r: &dyn ReadableZone) -> Obs {
         for d in rrset.data() {
             let mut buf = Vec::new();
             d.compose_rdata(&mut buf).unwrap();
+            fold_rdata(rrset.rtype().to_int(), &mut buf);
             g.push(CRec { owner: o.clone(), rtype: rrset.rtype().to_int(), ttl: rrset.ttl().as_secs(), rdata: buf });
         }
     }));
@@ -769,6 +854,7 @@ fn diff_obs(d: &InMemoryZoneDiff) -> DiffObs {
             for dd in rrset.data() {
                 let mut buf = Vec::new();
                 dd.compose_rdata(&mut buf).unwrap();
+                fold_rdata(rrset.rtype().to_int(), &mut buf);
                 // the key's type and the RRset's type are reported separately on purpose
                 let _ = rt;
                 v.push(CRec { owner: o.clone(), rtype: rrset.rtype().to_int(), ttl: rrset.ttl().as_secs(), rdata: buf });
@@ -1198,6 +1284,17 @@ fn crec_from_raw(msg: &[u8], r: &wire::RawRecord) -> Result<CRec, String> {
         if pos2 + 20 != r.rdata_pos + r.rdata.len() {
             return Err("soa rdlen".into());
         }
+        v
+    } else if r.rtype == 15 {
+        // MX: preference + exchange (may be compressed, RFC 1035 3.3.9), name folded
+        let mut p = vec![];
+        let (ex, pos) = wire::read_name(msg, r.rdata_pos + 2, &mut p)?;
+        if r.rdata.len() < 3 || pos != r.rdata_pos + r.rdata.len() {
+            return Err("mx rdlen".into());
+        }
+        let mut v = r.rdata[..2].to_vec();
+        v.extend(wire::to_wire(&ex));
+        fold_rdata(15, &mut v);
         v
     } else {
         r.rdata.clone()
@@ -1711,6 +1808,7 @@ fn case_json(c: &Case) -> Value {
         "label": c.label,
         "scheme": scheme(),
         "soa_plan": soa_plan(),
+        "universe": universe_id(),
         "old": c.old_kinds,
         "old_serial": c.old_serial,
         "fault": c.fault,
@@ -2417,6 +2515,9 @@ enum Op {
     RemAll,
 }
 
+/// the types `Op::Rem(_, t)` removes
+const REM_TYPES: [u16; 3] = [1, 16, 15];
+
 fn op_alphabet() -> Vec<Op> {
     let mut v = vec![];
     for n in 1..=3u8 {
@@ -2432,8 +2533,8 @@ fn op_alphabet() -> Vec<Op> {
 
 fn op_json(o: &Op) -> Value {
     match o {
-        Op::Upd(n, k) => json!({"op": "update_rrset", "owner": OWNERS[*n as usize], "kind": (["", "A{1}", "A{1,2}", "TXT", "A{3}", "A{1,3}"][(*k & 7) as usize]), "ttl": TTLS[(*k >> 3) as usize], "n": n, "k": k}),
-        Op::Rem(n, t) => json!({"op": "remove_rrset", "owner": OWNERS[*n as usize], "rtype": (["A", "TXT"][*t as usize]), "n": n, "t": t}),
+        Op::Upd(n, k) => json!({"op": "update_rrset", "owner": OWNERS[*n as usize], "kind": (if universe_id() >= TWIN_U0 { ["", "A{1}", "A{1,2}", "TXT", "{X}", "{X,Y}", "{Y}", ""] } else { ["", "A{1}", "A{1,2}", "TXT", "A{3}", "A{1,3}", "", ""] }[(*k & 7) as usize]), "ttl": TTLS[(*k >> 3) as usize], "n": n, "k": k}),
+        Op::Rem(n, t) => json!({"op": "remove_rrset", "owner": OWNERS[*n as usize], "rtype": (["A", "TXT", "MX"][*t as usize]), "n": n, "t": t}),
         Op::RemAll => json!({"op": "remove_all"}),
     }
 }
@@ -2467,7 +2568,7 @@ async fn run_edits(zone: &Zone, ops: &[Op], mode: u8) -> Result<Option<DiffObs>,
             }
             Op::Rem(n, t) => {
                 let node = node_for(&root, n).await.map_err(|e| format!("update_child:{e}"))?;
-                node.remove_rrset(if t == 0 { Rtype::A } else { Rtype::TXT }).await.map_err(|e| format!("remove_rrset:{e}"))?;
+                node.remove_rrset(Rtype::from_int(REM_TYPES[t as usize])).await.map_err(|e| format!("remove_rrset:{e}"))?;
             }
             Op::RemAll => root.remove_all().await.map_err(|e| format!("remove_all:{e}"))?,
         }
@@ -2493,7 +2594,7 @@ fn model_edits(old: &BTreeSet<MRec>, ops: &[Op]) -> (BTreeSet<MRec>, bool) {
                 m.insert((n, rds[0].rtype()), (k >> 3, rds.into_iter().collect()));
             }
             Op::Rem(n, t) => {
-                m.remove(&(n, if t == 0 { 1 } else { 16 }));
+                m.remove(&(n, REM_TYPES[t as usize]));
             }
             Op::RemAll => {
                 m.clear();
@@ -2521,7 +2622,7 @@ fn edit_pattern(ops: &[Op], diff_before: &Obs, d: &DiffObs, after: &Obs) -> Stri
     for op in ops {
         match *op {
             Op::Upd(n, k) if n == owner && kind_rds(k)[0].rtype() == bad.rtype => pat.push("update"),
-            Op::Rem(n, t) if n == owner && (if t == 0 { 1 } else { 16 }) == bad.rtype => pat.push("remove"),
+            Op::Rem(n, t) if n == owner && REM_TYPES[t as usize] == bad.rtype => pat.push("remove"),
             Op::RemAll => pat.push("remove_all"),
             _ => {}
         }
@@ -2549,8 +2650,11 @@ fn run_diff_case(sh: &Shared, old_k: Kinds, ops: &[Op], mode: u8, verbose: bool)
         l.transitions += ops.len() as u64 + 1;
         l.states.insert(obs_hash(&after));
     });
-    let cj = || json!({"part": "D", "scheme": scheme(), "soa_plan": soa_plan(), "old": old_k, "ops": ops.iter().map(op_json).collect::<Vec<_>>(), "mode": mode});
+    let cj = || json!({"part": "D", "scheme": scheme(), "soa_plan": soa_plan(), "universe": universe_id(), "old": old_k, "ops": ops.iter().map(op_json).collect::<Vec<_>>(), "mode": mode});
     let mut key = vec![0xD, mode, scheme() as u8];
+    if universe_id() >= TWIN_U0 {
+        key.push(universe_id());
+    }
     key.extend_from_slice(&soa_plan());
     key.extend_from_slice(&old_k);
     key.extend_from_slice(format!("{ops:?}").as_bytes());
@@ -2923,7 +3027,7 @@ fn run_sender_case(sh: &Shared, ks: &[Kinds], rq: &SReq, verbose: bool) {
     }
     key.extend_from_slice(format!("{rq:?}").as_bytes());
     sh.stats.distinct(fnv(&key));
-    let cj = || json!({"part": "S", "scheme": scheme(), "soa_plan": soa_plan(), "zones": ks, "request": sreq_json(rq)});
+    let cj = || json!({"part": "S", "scheme": scheme(), "soa_plan": soa_plan(), "universe": universe_id(), "zones": ks, "request": sreq_json(rq)});
     let rname = format!(
         "{}/{}{}{}{}",
         if rq.qtype == 252 { "axfr" } else { "ixfr" },
@@ -3455,6 +3559,88 @@ fn run_ttl_part(sh: &Shared, b: &Bounds) {
         hwork.push((plan, 4, a1, a2));
     }
     hwork.par_iter().for_each(|(plan, u, o, n)| with_soa_plan(*plan, || with_universe(*u, || run_history_pair(sh, *o, *n, &hb))));
+}
+
+// ====================================================================
+// Part Q: record data whose equality is not settled by a fixed layout
+// ====================================================================
+
+/// The edits of part Q on a.z: the RRset becomes {X}, {X,Y}, {Y}, is removed, or everything is removed.
+fn twin_op_alphabet(p: usize) -> Vec<Op> {
+    let t = REM_TYPES.iter().position(|t| *t == XS[TWINS[p].0 as usize].0).unwrap() as u8;
+    let mut v = vec![Op::Upd(1, 4), Op::Upd(1, 6), Op::Rem(1, t), Op::RemAll];
+    if p != CASE_TWIN {
+        v.push(Op::Upd(1, 5));
+    }
+    v
+}
+
+fn run_eq_part(sh: &Shared, b: &Bounds, quick: bool) {
+    // ---- Q/R (+ Q/F thorough): every ordered pair of every twin universe through every stream
+    // form of part R (AXFR, AXFR-style IXFR, IXFR RR / RRset granular, 2-step through every zone)
+    let rb = Bounds { max_dist: 2, all_splits_upto: if quick { 7 } else { 10 }, both_qmodes: !quick, mid_first: 1, mid_second: 1, fault_dist: 1, fault_cuts: 1, faults: !quick, ..*b };
+    let mut pairs: Vec<(u8, Kinds, Kinds)> = vec![];
+    for p in 0..TWINS.len() {
+        let uni = twin_universe(p);
+        for o in &uni {
+            for n in &uni {
+                pairs.push((TWIN_U0 + p as u8, *o, *n));
+            }
+        }
+        lcount(&format!("Q:twin-pair:{}", TWIN_NAMES[p]));
+    }
+    pairs.par_iter().for_each(|(u, o, n)| with_universe(*u, || run_pair(sh, *o, *n, &rb)));
+    // ---- Q/D: every edit sequence <= 2 (thorough 3) on every zone, both commit modes
+    let max_len = if quick { 2 } else { 3 };
+    let mut dwork: Vec<(u8, Kinds, Vec<Op>)> = vec![];
+    for p in 0..TWINS.len() {
+        let alpha = twin_op_alphabet(p);
+        for z in twin_universe(p) {
+            for len in 0..=max_len {
+                for idx in 0..pow(alpha.len(), len) {
+                    let mut ops = vec![];
+                    nth_string(&alpha, len, idx, &mut ops);
+                    dwork.push((TWIN_U0 + p as u8, z, ops));
+                }
+            }
+        }
+    }
+    dwork.par_iter().for_each(|(u, z, ops)| {
+        with_universe(*u, || {
+            for mode in 0..2u8 {
+                run_diff_case(sh, *z, ops, mode, false);
+            }
+        })
+    });
+    // ---- Q/S: the sender edited with the write interface along every pair (thorough: every 3-chain),
+    // its commit diffs served by the real XfrMiddlewareSvc; Q/W: the streams through the stream client
+    let reqs = ttl_sender_requests();
+    let mut chains: Vec<(u8, Vec<Kinds>)> = vec![];
+    for (u, o, n) in &pairs {
+        if o != n {
+            chains.push((*u, vec![*o, *n]));
+            if !quick {
+                for m in twin_universe((*u - TWIN_U0) as usize) {
+                    if m != *n {
+                        chains.push((*u, vec![*o, *n, m]));
+                    }
+                }
+            }
+        }
+    }
+    lcount(&format!("Q:S:version-chains={}", chains.len()));
+    chains.par_iter().for_each(|(u, ks)| {
+        with_universe(*u, || {
+            for rq in &reqs {
+                if rq.serial.map(|s| s as usize > ks.len()).unwrap_or(false) {
+                    continue;
+                }
+                run_sender_case(sh, ks, rq, false);
+            }
+        })
+    });
+    let wb = Bounds { wire_faults: false, wire_all_splits_upto: 0, mid_first: 0, mid_second: 0, ..*b };
+    pairs.par_iter().for_each(|(u, o, n)| with_universe(*u, || run_wire_pair(sh, *o, *n, &wb)));
 }
 
 fn replay_sender(sh: &Shared, case: &Value) {
@@ -5053,7 +5239,7 @@ fn main() {
             eprintln!("part E done at {:.1}s ({} evaluations)", t0.elapsed().as_secs_f64(), sh.stats.evals());
             run_interleave_part(&sh, ctx.quick());
             eprintln!("part I done at {:.1}s ({} evaluations)", t0.elapsed().as_secs_f64(), sh.stats.evals());
-        } else if std::env::var("C10_ONLY_L").is_err() {
+        } else if std::env::var("C10_ONLY_L").is_err() && std::env::var("C10_ONLY_Q").is_err() {
             pairs.par_iter().for_each(|(o, n)| run_pair(&sh, *o, *n, &b));
             eprintln!("parts R+F done at {:.1}s ({} evaluations)", t0.elapsed().as_secs_f64(), sh.stats.evals());
             run_diff_part(&sh, &b);
@@ -5073,10 +5259,14 @@ fn main() {
             run_interleave_part(&sh, ctx.quick());
             eprintln!("part I done at {:.1}s ({} evaluations)", t0.elapsed().as_secs_f64(), sh.stats.evals());
         }
-        if !only_ei {
+        if !only_ei && std::env::var("C10_ONLY_Q").is_err() {
             run_ttl_part(&sh, &b);
         }
         eprintln!("part L done at {:.1}s ({} evaluations)", t0.elapsed().as_secs_f64(), sh.stats.evals());
+        if !only_ei {
+            run_eq_part(&sh, &b, ctx.quick());
+            eprintln!("part Q done at {:.1}s ({} evaluations)", t0.elapsed().as_secs_f64(), sh.stats.evals());
+        }
     }
     // merge the per-thread statistics
     let mut locals: Vec<Local> = rayon::broadcast(|_| LOCAL.with(|l| std::mem::take(&mut *l.borrow_mut())));
@@ -5099,7 +5289,7 @@ fn main() {
             "traces_validated_against_impl": total.runs,
             "evaluations": sh.stats.evals(),
             "distinct_nontrivial": sh.stats.distinct_count(),
-            "rule": "(part L cases count like the cases of the part they re-run, with the SOA plan in the key) distinct (old zone, exact response octets) receiver cases with >=2 messages, a fault, or a changed zone; plus distinct (old zone, non-empty edit sequence, commit mode) diff cases; plus distinct (old,mid,new,request) sender cases; plus distinct (old, first stream, cut, abort kind, second target, second form) histories; plus distinct (RNAME extension, request kind) TSIG sender cases; part W cases count like part R/F cases; plus distinct (zone origin, old content, replacement route, new content) cases of part E; plus distinct (version chain, request, commit schedule) cases of part I (the receiver run of a part E / part I case is a second evaluation of that case)",
+            "rule": "(part L and part Q cases count like the cases of the part they re-run, with the SOA plan / twin universe in the key) distinct (old zone, exact response octets) receiver cases with >=2 messages, a fault, or a changed zone; plus distinct (old zone, non-empty edit sequence, commit mode) diff cases; plus distinct (old,mid,new,request) sender cases; plus distinct (old, first stream, cut, abort kind, second target, second form) histories; plus distinct (RNAME extension, request kind) TSIG sender cases; part W cases count like part R/F cases; plus distinct (zone origin, old content, replacement route, new content) cases of part E; plus distinct (version chain, request, commit schedule) cases of part I (the receiver run of a part E / part I case is a second evaluation of that case)",
             "exhaustive": true,
             "bounds": {
                 "zones": 64, "ordered_pairs": npairs, "pair_distance": b.max_dist, "all_splits_up_to_rrs": b.all_splits_upto, "beyond": "all splits with <=2 cuts + one RR per message",
@@ -5111,6 +5301,7 @@ fn main() {
                 "ttl_axis": format!("part L: RRset TTL menu {:?}, SOA menu (TTL index, [refresh, retry, expire, minimum]) {:?}; TTL universe of {} zones (a.z: none | A,Ax2,TXT x TTL; b.a.z: none | TXT x {} TTLs), all ordered pairs through axfr / axfr-style ixfr / ixfr RR-granular, RRset-granular, added-records-carry-new-ttl, all splits up to {} RRs; 2-step streams and faults on the 7-zone sub-universe (faults: {}); SOA plans {} x 5 content pairs; diff edits: {} ops, sequences <= {}{}; sender: TTL pairs <= {} RRset apart + 3-chains of the sub-universe + SOA plans x 4 chains, 12 request kinds; stream client and histories on the sub-universe and under SOA plans; edit-shape universe of {} zones (a.z: A{{1}} | A{{1,2}} | A{{3}} | A{{1,3}} x {} TTLs): the ordered pairs with A{{3}} or A{{1,3}} on a side (record edit keep+add, keep+remove, keep+add+remove, replace all, none x TTL same, raised, lowered; counted per shape in the histogram under L:shape:) through the receiver (all stream forms), the sender (2-version chains{}), the stream client, and as old contents / operations of the diff edits", TTLS, SOAVS, ttl_universe(b.ttl_wide).len(), if b.ttl_wide { 2 } else { 1 }, if b.ttl_wide { 8 } else { 6 }, if b.ttl_wide { "all pairs" } else { "4 pairs" }, if b.ttl_wide { "v1 x v2 x v3 (215)" } else { "v1 x v2, v3 = v1 (35)" }, ttl_op_alphabet().len(), b.diff_len.min(2), if b.ttl_wide { " (3 on the sub-universe)" } else { "" }, b.sender_dist, ttl_shape_universe(b.ttl_wide).len(), if b.ttl_wide { 4 } else { 3 }, if b.ttl_wide { " and 3-version chains; faults and 2-step streams through every zone of it" } else { "" }),
                 "zone_origin_x_tree_shape": format!("part E: names a.z, b.a.z, c.z, e.c.z, d.e.c.z each holding nothing or A{{1}}{}: {} contents; origins of the old zone {:?}; replacement routes {:?}; new content: {}; per case: content after history and after replacement == model, diff returned with the right serials, diff(old) == new by the model's own diff application, IXFR served from the diff by the real sender is a valid transfer of new (reference) and takes the real receiver there", if ctx.quick() { "" } else { " (leaves b.a.z, d.e.c.z also A{1,2} or TXT)" }, ek_universe(!ctx.quick()).len(), E_ORIGINS, E_ROUTES.iter().map(|r| r.1).collect::<Vec<_>>(), if ctx.quick() { "every content of the universe" } else { "every content <= 3 names away plus the empty and the full content" }),
                 "writer_interleaved_with_transfer": format!("part I: sender at version 2 of a 4-version chain ({} chains), {} request kinds (axfr, axfr one RR per response, ixfr answered axfr-style, ixfr from diffs in one / many messages, Zone as provider{}); the writer commits version 3 (and 4) after k = 0..={} items of the response stream (k = 0: stream returned, not yet polled) and 0..={} extra runtime turns: one version, two versions at one point{}; oracle: the emitted stream is a valid transfer of one version that was current between request and end of stream (histogram I:<request>:<when>)", if ctx.quick() { 2 } else { 110 }, interleave_requests(ctx.quick()).len(), if ctx.quick() { "" } else { ", small message limits, udp" }, if ctx.quick() { 6 } else { 12 }, if ctx.quick() { 2 } else { 3 }, if ctx.quick() { "" } else { ", every pair of points (base chains)" }),
+                "record_identity": format!("part Q: twin pairs {:?} as (type, RDATA) {:?} (last pair: one record by DNS rules, embedded names folded on both sides); per pair a.z in {{none, {{X}}, {{X,Y}}, {{Y}}}}: all ordered pairs through part R (all stream forms, 2-step through every zone, all splits up to {} RRs{}), part D (edit sequences <= {}, both commit modes), part S ({} request kinds, {}), part W", TWIN_NAMES, TWINS.iter().map(|(x, y)| (XS[*x as usize].0, hex(XS[*x as usize].1), hex(XS[*y as usize].1))).collect::<Vec<_>>(), if ctx.quick() { 7 } else { 10 }, if ctx.quick() { "" } else { ", faults" }, if ctx.quick() { 2 } else { 3 }, ttl_sender_requests().len(), if ctx.quick() { "2-version chains" } else { "2- and 3-version chains" }),
                 "tsig_sender": format!("SOA + {} TXT records of {} octets, RNAME extension 0 and 2..={} octets, 4 request kinds", FILLERS, FILL_TXT, b.tsig_extra_max),
             },
             "histogram": total.counters,
